@@ -115,7 +115,7 @@ pub fn write_evidence(
             0.0
         }
     };
-    let ev = json!({
+    let mut ev = json!({
         "property_id": spec.property,
         "tier": ctx.tier.as_str(),
         "seed": ctx.seed,
@@ -148,6 +148,15 @@ pub fn write_evidence(
         "wall_s": wall_s,
         "violations": violations,
     });
+    // Level-specific keys (translation validation): scenarios report them through reserved probes.
+    if spec.level == "translation_validation" {
+        let programs = probes.get("tv_programs").copied().unwrap_or(0);
+        let checked = probes.get("tv_disagreements_checked").copied().unwrap_or(0);
+        if programs > 0 {
+            ev["coverage"]["programs"] = json!(programs);
+            ev["coverage"]["disagreements_checked"] = json!(checked);
+        }
+    }
     let _ = std::fs::create_dir_all(format!("{dir}/evidence"));
     let path = format!("{dir}/evidence/{}.json", spec.property);
     let tmp = format!("{path}.tmp");
